@@ -47,4 +47,5 @@ def main(tier):
     chk.run("R-TEXTSIG", B.textsig, r, cx.templates, floor=2)
     chk.run("R-TEXTPAIR", B.textpair, cx.repo, cx.templates, cx.cpp, floor=4)
     chk.run("R-SWITCHFIT", B.switchfit, cx.repo, floor=1)
+    chk.run("R-CHOICETYPE", B.choicetype, cx.repo, cx.cpp, floor=2)
     return chk.finish()
